@@ -49,6 +49,7 @@ def gen_cases(seed, tier):
     cases = []
     for i in range(n):
         kind = KINDS[i % len(KINDS)]
+        j = i // len(KINDS)
         g = work_sig.gen_geometry(rng, tier, small=True)
         g['fchans'] = min(g['fchans'], 128)
         nfr = int(rng.integers(1, 8)) if kind != 'natural' else int(rng.integers(2, 6))
@@ -60,8 +61,8 @@ def gen_cases(seed, tier):
                 tch[-1] += 2
         gaps = [float(common.pick(rng, [0.0, 0.0, 1.0, 300.0, 1e4])) if rng.random() < 0.6 else float(rng.uniform(0, 1e4))
                 for _ in range(nfr)]
-        spec = work_sig.gen_signal(rng, g, i=i // len(KINDS))
-        opts = work_sig.gen_opts(rng, i // len(KINDS))
+        spec = work_sig.gen_signal(rng, g, i=j)
+        opts = work_sig.gen_opts(rng, j)
         if not equal or kind == 'natural':
             if spec['path']['form'] in ('array', 'list'):
                 spec['path']['form'] = 'callable'
@@ -72,7 +73,7 @@ def gen_cases(seed, tier):
             spec['tprof']['form'] = 'callable'
             if kind == 'cb_bp':
                 spec['bp']['kind'] = 'cos'
-        bk = work_sig.BOUND_KINDS[(i // 7) % len(work_sig.BOUND_KINDS)]
+        bk = common.stratum(i, 61, work_sig.BOUND_KINDS)
         if bk in ('below', 'above', 'empty') and kind != 'normal':
             bk = 'none'
         c = dict(kind=kind, geom=g, tchans=tch, gaps=gaps, t0=float(common.pick(rng, [0.0, 1.7e9, 1.6e9 + 12345.678])),
@@ -81,13 +82,13 @@ def gen_cases(seed, tier):
                  t_slew=float(common.pick(rng, [0.0, 1.0, 123.456, 1e3])), ordered=bool(rng.integers(2)),
                  sub=int(rng.integers(2 ** 31)))
         if kind in ('normal', 'normal_subset'):
-            c['standalone'] = ['none', 'pre', 'post', 'both'][(i // len(KINDS)) % 4]
+            c['standalone'] = common.stratum(j, 62, ['none', 'pre', 'post', 'both'])
             if kind == 'normal_subset':
                 c['t_overwrite'] = bool(rng.integers(2))
-            c['reverse'] = bool((i // len(KINDS)) % 5 == 2) and not c['t_overwrite']
+            c['reverse'] = bool(common.stratum(j, 63, 5) == 2) and not c['t_overwrite']
         if kind == 'line':
             c['line_points'] = [int(x) for x in rng.integers(0, 70, size=3 if tier == 'quick' else 12)]
-            if tier == 'thorough' and (i // len(KINDS)) % 4 == 0:
+            if tier == 'thorough' and common.stratum(j, 64, 4) == 0:
                 # exhaustive: a failpoint at EVERY executed statement of Frame.add_signal, for every frame of the cadence
                 c['line_points'] = list(range(0, 110))
                 c['line_exhaustive'] = True
